@@ -138,6 +138,10 @@ fn cross_corpus() -> Vec<Vec<u8>> {
     add(cat::signatures(true, false), 3);
     add(cat::scts(false), 3);
     add(cat::sct_lists(false), 9);
+    for b in cat::foreign_protocols().into_iter().step_by(7) {
+        let n = b.len().min(2000);
+        v.push(b[..n].to_vec());
+    }
     v
 }
 
